@@ -35,7 +35,7 @@ pub fn walk_args(input: &Value, files0: Option<&std::path::Path>) -> Vec<String>
     if let Some(f) = files0 {
         a.push("-files0-from".into());
         a.push(f.to_string_lossy().into_owned());
-    } else {
+    } else if !input.get("implicit").and_then(|b| b.as_bool()).unwrap_or(false) {
         for r in arr(&input["roots"]) {
             a.push(json_to_string(&r["spell"]));
         }
@@ -131,6 +131,12 @@ impl Prop for PWalk {
             std::fs::write(&f0path, b).unwrap();
         }
         let mut args = walk_args(input, if files0 { Some(&f0path) } else { None });
+        // find's working directory: the sandbox, or (starting point "." - given or implied) a directory of the tree
+        let top = dir.clone();
+        let dir = match input.get("cwd_node").and_then(|c| c.as_u64()) {
+            Some(c) if c > 0 => top.join(node_path(&tree, c as usize)),
+            _ => top.clone(),
+        };
         let byino = input.get("byino").and_then(|b| b.as_bool()).unwrap_or(false);
         if byino {
             // names that are not valid UTF-8 cannot be observed through find's (lossy) printers: observe the
@@ -143,7 +149,7 @@ impl Prop for PWalk {
             let k = args.iter().position(|a| a == "-printf").unwrap();
             args.insert(k + 1, "%i\\0".into());
         }
-        let errf = dir.parent().unwrap().join("stderr.txt");
+        let errf = top.parent().unwrap().join("stderr.txt");
         let noread: Vec<usize> = (1..=tree.len()).filter(|i| tree[*i - 1].extra.get("noread").and_then(|b| b.as_bool()).unwrap_or(false)).collect();
         let r = if noread.is_empty() {
             run_find_inproc(&dir, &args, None, &errf)
@@ -152,12 +158,12 @@ impl Prop for PWalk {
             // (root reads everything)
             use std::os::unix::fs::PermissionsExt;
             for i in &noread {
-                let _ = std::fs::set_permissions(dir.join(node_path(&tree, *i)), std::fs::Permissions::from_mode(0));
+                let _ = std::fs::set_permissions(top.join(node_path(&tree, *i)), std::fs::Permissions::from_mode(0));
             }
-            let _ = std::fs::set_permissions(dir.parent().unwrap(), std::fs::Permissions::from_mode(0o777));
+            let _ = std::fs::set_permissions(top.parent().unwrap(), std::fs::Permissions::from_mode(0o777));
             let r = run_find_bin(&dir, &args, None, &[("VH_SETUID".to_string(), "65534".to_string())], 60);
             for i in &noread {
-                let _ = std::fs::set_permissions(dir.join(node_path(&tree, *i)), std::fs::Permissions::from_mode(0o755));
+                let _ = std::fs::set_permissions(top.join(node_path(&tree, *i)), std::fs::Permissions::from_mode(0o755));
             }
             r
         };
@@ -199,7 +205,9 @@ impl Prop for PWalk {
     fn gen(&mut self, rng: &mut Rng, idx: usize, tier: &str) -> Value {
         let maxn = if tier == "thorough" { 40 } else { 22 };
         let n = 1 + rng.below(if idx % 7 == 0 { maxn } else { 10 });
-        let names: [&str; 12] = ["a", "b", "c", "d", "e", "ab", "ba", "x.y", "A", "a b", "é", "-n"];
+        // (C18: also a name with a newline in it - as a starting point it can only come from a -files0-from list or be quoted)
+        let names: Vec<&str> = if self.flavour == "C18" { vec!["a", "b", "c", "d", "e", "ab", "ba", "x.y", "A", "a b", "é", "-n", "x\ny"] }
+                               else { vec!["a", "b", "c", "d", "e", "ab", "ba", "x.y", "A", "a b", "é", "-n"] };
         let mut tree: Vec<Value> = vec![];
         let mut dirs: Vec<usize> = vec![]; // 1-based ids of directories
         let mut nonlinks: Vec<usize> = vec![];
@@ -262,7 +270,10 @@ impl Prop for PWalk {
             let t = *rng.pick(&tops);
             let nm = json_to_string(&tree[t - 1]["name"]);
             let is_dirlike = tree[t - 1]["kind"] == "d";
-            let spell = if nm.starts_with('-') {
+            let spell = if nm.starts_with('-') && use_files0 && rng.chance(1, 2) {
+                // in a -files0-from list a name may begin with '-'
+                nm.clone()
+            } else if nm.starts_with('-') {
                 format!("./{}", nm)
             } else {
                 match rng.below(if self.flavour == "C18" { 6 } else { 9 }) {
@@ -379,6 +390,16 @@ impl Prop for PWalk {
         let mut v = json!({"tree": tree, "roots": roots, "cfg": cfg, "form": rng.below(30)});
         if mode == "Pexplicit" || mode == "follow" {
             v["cfg"]["modeflag"] = json!(mode);
+        }
+        if self.flavour == "C18" && !use_files0 && rng.chance(1, 8) {
+            // "no starting point means '.'": find runs inside a directory of the tree, with "." given or with nothing
+            let dirs: Vec<usize> = (1..=n).filter(|i| v["tree"][i - 1]["kind"] == "d").collect();
+            if !dirs.is_empty() {
+                let t = *rng.pick(&dirs);
+                v["roots"] = json!([{"spell": str_to_json("."), "node": t}]);
+                v["cwd_node"] = json!(t);
+                v["implicit"] = json!(rng.chance(2, 3));
+            }
         }
         if use_files0 {
             v["files0"] = json!(true);
